@@ -7,12 +7,14 @@ package main
 // and the ranges of Go's native AST: flattened tokens before formatting
 // (hook VerifFileTokens), tree shape (hook VerifLoadTree), accessors via the
 // public API, File.Bytes().
-// Direct oracle (real code only): see oracle.go.
+// Direct oracle (real code only): see oracle.go and vars.go (variable references
+// against an AST-derived reference, RenameVariablePrefix token check).
 
 import (
 	"fmt"
 	"os"
 	"path/filepath"
+	"sort"
 
 	"github.com/hashicorp/hcl/v2"
 	"github.com/hashicorp/hcl/v2/hclsyntax"
@@ -72,13 +74,14 @@ var c10Corpus = []string{
 
 func runC10(cfg *hv.RunCfg) error {
 	rep := hv.NewReport("C10", cfg.Seed)
-	rep.Rule = "hand corpus; then per generated case: 45% hv.GenConfig (grammar-directed, 4 wildness levels), 45% targeted generator (every traversal shape x every expression position x comments before/inside/after items, cmd/c10/gen.go), 10% byte-mutated (kept to check no panic and the nil-file contract); non-trivial = error-free parse with at least one item; distinct by SHA-256 of the input"
+	rep.Rule = "hand corpus; then per generated case: 40% hv.GenConfig (grammar-directed, 4 wildness levels), 40% targeted generator (every traversal shape x every expression position x comments before/inside/after items, cmd/c10/gen.go), 10% for-scope generator (a name that is a for iterator in one place and a root-scope reference before/after/beside the for, nested and sibling fors re-using names, template for directives, object keys; cmd/c10/forscope.go), 10% byte-mutated (kept to check no panic and the nil-file contract); non-trivial = error-free parse with at least one item; distinct by SHA-256 of the input"
 	r := hv.NewRng(cfg.Seed, 10)
 	cf := &hv.CaseFile{Dir: cfg.Out, Name: "c10cases",
 		Imports: "From Coq Require Import String.\nFrom HclV Require Import Base.Prelude Write.Format Write.Loader Write.LoaderCheck.",
 		Ctype:   "case", Checker: "check_load_cases"}
 
 	var srcs []string
+	forScopeSrc := map[string]bool{} // inputs made by the for-scope generator (also mutated ones)
 	if cfg.Replay != "" {
 		b, err := os.ReadFile(cfg.Replay)
 		if err != nil {
@@ -87,6 +90,7 @@ func runC10(cfg *hv.RunCfg) error {
 		srcs = []string{string(b)}
 	} else {
 		srcs = append(srcs, c10Corpus...)
+		srcs = append(srcs, c10ScopeCorpus...)
 		if extra, err := filepath.Glob("/verif/corpus/C10/*.hcl"); err == nil {
 			for _, p := range extra {
 				if b, err := os.ReadFile(p); err == nil {
@@ -98,17 +102,23 @@ func runC10(cfg *hv.RunCfg) error {
 			var s string
 			var feat map[string]int
 			switch x := r.Intn(20); {
-			case x < 9:
+			case x < 8:
 				s, feat = hv.GenConfig(r)
 				rep.Hist("gen:GenConfig")
-			case x < 18:
+			case x < 16:
 				s, feat = genTargeted(r)
 				rep.Hist("gen:targeted")
+			case x < 18:
+				s, feat = genForScope(r)
+				rep.Hist("gen:forscope")
 			default:
-				if r.Chance(0.5) {
+				switch r.Intn(5) {
+				case 0, 1:
 					s, feat = hv.GenConfig(r)
-				} else {
+				case 2, 3:
 					s, feat = genTargeted(r)
+				default:
+					s, feat = genForScope(r)
 				}
 				s = hv.Mutate(r, s)
 				rep.Hist("gen:mutated")
@@ -117,6 +127,9 @@ func runC10(cfg *hv.RunCfg) error {
 				rep.Histogram["feat:"+k] += v
 			}
 			srcs = append(srcs, s)
+			if feat["fs:for-tuple"]+feat["fs:for-object"] > 0 {
+				forScopeSrc[s] = true
+			}
 		}
 	}
 	for _, s := range srcs {
@@ -126,6 +139,9 @@ func runC10(cfg *hv.RunCfg) error {
 		if !diags.HasErrors() {
 			nativeBody = nf.Body.(*hclsyntax.Body)
 			rep.Hist("input:valid")
+			if forScopeSrc[s] {
+				rep.Hist("input:valid-forscope")
+			}
 		} else {
 			rep.Hist("input:has-parse-errors")
 		}
@@ -137,6 +153,17 @@ func runC10(cfg *hv.RunCfg) error {
 			rep.Sample(s)
 		}
 		fails := c10Oracle(src, nativeBody, o)
+		// variable references against an AST-derived reference (vars.go)
+		vfails, vfeats := c10VarsOracle(src, nativeBody, o)
+		fails = append(fails, vfails...)
+		vkeys := make([]string, 0, len(vfeats))
+		for k := range vfeats {
+			vkeys = append(vkeys, k)
+		}
+		sort.Strings(vkeys)
+		for _, k := range vkeys {
+			rep.Hist(k)
+		}
 		if len(fails) == 0 {
 			rep.Hist("oracle-ok")
 		}
